@@ -57,5 +57,13 @@ Definition dssp_prog : prog :=
    only, out[i*n + j] written once.  Inp 0 = the value for frame i *)
 Definition pointwise_prog : prog := [Out (Inp 0)].
 
+(* mdtraj/rmsd/src/center_sse.h  inplace_center_and_trace_atom_major(): "#pragma omp parallel for" over frames with every
+   temporary in the private(...) clause; sx_ = ... = _mm_setzero_pd() at the top of each iteration, then accumulated,
+   then the frame is shifted in place and its trace stored at traces[k].
+   cell 0 = the coordinate sums, cell 1 = the float mean; Inp 0 = the frame *)
+Definition center_prog : prog :=
+  [Set_ 0 (Const 0); Set_ 0 (Add (Cell 0) (Inp 0)); Set_ 1 (Cell 0);
+   Out (Add (Inp 0) (Mul (Const (-1)) (Cell 1)))].
+
 Definition skeletons : list prog :=
-  [sasa_fix_prog; rmsd_prog; superpose_prog; drid_prog; neighborlist_prog; kabsch_sander_prog; dssp_prog; pointwise_prog].
+  [sasa_fix_prog; center_prog; rmsd_prog; superpose_prog; drid_prog; neighborlist_prog; kabsch_sander_prog; dssp_prog; pointwise_prog].
